@@ -103,7 +103,7 @@ def execute(sc):
                 return                                   # lost
             fault = sc.get('fault')
             if fault and fault[0] == key and fault[1] == 'nack':
-                asyncio.get_running_loop().call_soon(face.deliver_task, rc.make_lp(fragment=wire, nack_reason=150))
+                asyncio.get_running_loop().call_soon(face.deliver_task, rc.make_lp(fragment=wire, nack_reason=sc.get('nack_reason', 150)))
                 return
             if key == 'disc':
                 if sc['n'] == 0:
@@ -120,14 +120,17 @@ def execute(sc):
         vcount = [0]
 
         async def validator(name, sig):
+            # the verdict depends on the *Data name* the validator is given (as a real trust policy does)
             vcount[0] += 1
             first = vcount[0] == 1          # the first validated Data is always the discovery answer
             fault = sc.get('fault')
+            nm = [bytes(c) for c in name]
+            R.setdefault('validated_names', []).append(nm)
             if fault and fault[1] == 'valfail':
                 if fault[0] == 'disc':
-                    return not first
-                nm = [bytes(c) for c in name]
-                if not first and rc.comp_parts(nm[-1])[0] == 0x32 and int.from_bytes(rc.comp_parts(nm[-1])[1], 'big') == fault[0]:
+                    disc_name = prefix + ver + ([SEG(sc['disc_answer'])] if sc['n'] else [])
+                    return not (first and nm == disc_name)
+                if not first and nm == prefix + ver + [SEG(fault[0])]:
                     return False
             return True
 
@@ -163,8 +166,9 @@ def gen_script(rng):
     for k in keys:
         if rng.random() < 0.35:
             sc['loss'][str(k)] = rng.randint(1, retry + 1) if rng.random() < 0.3 else rng.randint(1, max(1, retry - 1))
-    if rng.random() < 0.2:
+    if rng.random() < 0.25:
         sc['fault'] = (rng.choice(keys), rng.choice(['nack', 'valfail']))
+        sc['nack_reason'] = rng.choice([0, 0, 50, 100, 150, 300])
     return sc
 
 
@@ -177,6 +181,11 @@ def judge(ctx, sc, R, S):
         ex = le.get('exception')
         ctx.report(f'background-error:{type(ex).__name__ if ex else "?"}', f'{le.get("repr")}', w)
     exp_out, exp_res, exp_att = model(sc)
+    for nm in R.get('validated_names', []):
+        if sc['n'] and (len(nm) < 2 or rc.comp_parts(nm[-1])[0] != 0x32):
+            ctx.report('validator-not-given-the-data-name', 'the validator was called with a name that is not the name of the received Data',
+                       dict(w, given=[c.hex() for c in nm]))
+            break
     fault = sc.get('fault')
     # validation failure on the discovery answer when it is segment k != 0: the model treats 'disc' as the faulted request
     if R['yielded'] != exp_out:
